@@ -488,7 +488,7 @@ def shrink(ctx, hist, want_sig, limit=60):
         progressed = False
         while i < len(cur) and n < limit:
             seg = cur[i:i + chunk]
-            if any(l.split()[0] in ("snapshot",) for l in seg):
+            if any(l.split()[0] in ("snapshot", "closeall") or l.startswith("hopen 0 4") for l in seg):
                 i += 1
                 continue
             cand = cur[:i] + cur[i + chunk:]
